@@ -431,6 +431,19 @@ impl CheckedAction {
                     &mut state,
                 )
                 .await?;
+                // The signer's authorization is also checked by every validator when it constructs
+                // the checked transactions of a proposed block, where a failure rejects the whole
+                // proposal. It must therefore always be fatal here (excluding the transaction from
+                // the block being prepared) and never be recorded as a non-fatal execution failure.
+                checked_action
+                    .run_mutable_checks(&state)
+                    .await
+                    .map_err(|source| {
+                        CheckedActionExecutionError::execution(
+                            checked_action.action().name(),
+                            source,
+                        )
+                    })?;
                 if let Err(source) = checked_action.execute(&mut state).await {
                     // Determine whether to report this as a fatal error (pre-Blackburn) or not.
                     let is_fatal = state
